@@ -362,20 +362,20 @@ Qed.
 
 
 (* ---------------- one HandleChange call issued by the diff ---------------- *)
-Definition change_pre (st : rstate) (p : bytes) (s : stat) (acc : list vitem) : Prop :=
+Definition change_pre (kind : N) (st : rstate) (p : bytes) (s : stat) (acc : list vitem) : Prop :=
   ok_path p = true /\ clean_path p /\ safe (r_fs st) D (removelast (comps p))
   /\ (forall j t, reach (r_fs st) j -> tmpname t -> blookup t (ents (r_fs st) j) = None)
-  /\ (hardlink_branch s = true ->
+  /\ (N.eqb kind 2 = false -> hardlink_branch s = true ->
         ok_path (st_linkname s) = true /\ safe (r_fs st) D (removelast (comps (st_linkname s))))
   /\ (forall id pp, In (id, pp) (r_pipes st) -> ~ is_prefix (comps p) (comps (pp_path pp)))
-  /\ In p (accpaths acc).
+  /\ (N.eqb kind 2 = false -> In p (accpaths acc)).
 
 Definition change_post (kind : N) (p : bytes) (s : stat) (st st' : rstate) : Prop :=
   live st' = true ->
     live st = true
     /\ (forall j t, reach (r_fs st') j -> tmpname t -> blookup t (ents (r_fs st') j) = None)
     /\ (forall cs, ~ is_prefix (comps p) cs -> (forall t, tmpname t -> ~ In t cs) ->
-           safe (r_fs st) D cs -> safe (r_fs st') D cs)
+           (safe (r_fs st) D cs -> safe (r_fs st') D cs) /\ rwalk (r_fs st') D cs = rwalk (r_fs st) D cs)
     /\ (kind <> 2 -> solid s = true -> safe (r_fs st') D (comps p)).
 
 Definition same_diff (st st' : rstate) : Prop :=
@@ -407,7 +407,7 @@ Proof.
 Qed.
 
 Lemma apply_change_inv idx kind p s st acc :
-  GBase st acc -> (live st = true -> change_pre st p s acc) ->
+  GBase st acc -> (live st = true -> change_pre kind st p s acc) ->
   let st' := apply_change c idx kind p s st in
   GBase st' acc /\ same_diff st st' /\ change_post kind p s st st'.
 Proof.
@@ -431,7 +431,7 @@ Proof.
   set (pre := removelast (comps p)) in *. set (bn := last (comps p) []) in *.
   assert (Hfree' : forall dd, rwalk (r_fs st) D pre = Some dd -> blookup tmp (ents (r_fs st) dd) = None).
   { intros dd Hw. apply Hfree; auto. apply (rwalk_reach D _ pre D dd); [constructor|auto]. }
-  pose proof (dw_handle_contained D c (r_fs st) tmp kind p s Wg eq_refl Hok (tmp_ok tmp Htn) (Hcl tmp Htn)
+  pose proof (dw_handle_contained' D c (r_fs st) tmp kind p s Wg eq_refl Hok (tmp_ok tmp Htn) (Hcl tmp Htn)
                 Hsafe Hfree' Hlink) as DW.
   cbv zeta in DW. fold pre bn in DW.
   cbn [r_fs set_tmps]. rewrite Ef.
@@ -472,10 +472,10 @@ Proof.
         { apply (reach_lt D (r_fs st) j Wg). apply (rwalk_reach D (r_fs st) pre D j (reach_refl D (r_fs st)) E). }
         apply (N.lt_irrefl j). apply (N.lt_le_trans _ _ _ Hlt Hge). }
     assert (Hkept : forall cs, ~ is_prefix (comps p) cs -> (forall t, tmpname t -> ~ In t cs) ->
-                      safe (r_fs st) D cs -> safe f' D cs).
-    { intros cs H1 H2 H3. apply (proj1 (K1 cs (off_of tmp pre bn cs ltac:(rewrite <- Ecs; exact H1) (H2 tmp Htn)))). exact H3. }
+                      (safe (r_fs st) D cs -> safe f' D cs) /\ rwalk f' D cs = rwalk (r_fs st) D cs).
+    { intros cs H1 H2. apply (K1 cs (off_of tmp pre bn cs ltac:(rewrite <- Ecs; exact H1) (H2 tmp Htn))). }
     assert (Hpost : forall st', r_fs st' = f' -> live st' = true -> change_post kind p s st st').
-    { intros st' E1 E2 _. rewrite E1. repeat split; auto. }
+    { intros st' E1 E2 _. rewrite E1. split; [exact L|]. split; [exact Halive|]. split; [exact Hkept|exact Hsolidsafe]. }
     set (st4 := if newdir
                 then set_tmps (upd (set_tmps st1 (tl (r_tmps st1)) (r_dirtimes st1)) f')
                        (r_tmps (upd (set_tmps st1 (tl (r_tmps st1)) (r_dirtimes st1)) f'))
@@ -495,11 +495,12 @@ Proof.
       assert (Hk2 : kind <> 2).
       { intro E. subst kind. pose proof (dw_handle_delete_res c (r_fs st) tmp p s true newdir) as H.
         rewrite Edw in H. specialize (H eq_refl). discriminate. }
+      assert (Hacc' : In p (accpaths acc)) by (apply Hacc; apply N.eqb_neq; exact Hk2).
       destruct (blookup p (r_files st4)) as [id|] eqn:Ebl.
       * split; [|split].
         -- constructor; cbn; rewrite ?F1, ?F2, ?F3; try apply G; auto.
            ++ intros id' pp' Hin'. apply aset_In in Hin'. destruct Hin' as [E|Hin'].
-              ** injection E as E1 E2. subst id' pp'. cbn. split; auto. repeat split; cbn; auto.
+              ** injection E as E1 E2. subst id' pp'. cbn. split; [exact Hacc'|]. repeat split; cbn; auto.
                  --- intros dd' i' Hw' Hb'. fold pre in Hw'. fold bn in Hb'.
                      rewrite (proj2 (K1 pre (off_short tmp pre bn pre (le_n _)))) in Hw'.
                      rewrite Hw in Hw'. injection Hw' as <-. rewrite Hbl in Hb'. injection Hb' as <-.
@@ -698,28 +699,26 @@ Proof.
     - repeat split.
     - apply G1. }
   assert (Ecs : comps (st_path s) = removelast (comps (st_path s)) ++ [last (comps (st_path s)) []]) by (apply split_comps; auto).
-  assert (Hpre : live st2 = true -> change_pre st2 (st_path s) s (acc ++ [it])).
+  assert (Hpre : live st2 = true -> change_pre 0 st2 (st_path s) s (acc ++ [it])).
   { intros L. assert (L0 : live st = true) by exact L. destruct (A L0) as [A1 A2 A3].
     unfold change_pre. cbn [r_fs st2 st1 set_diff set_valid r_pipes].
     split; [exact Hok|]. split; [exact Hcl|]. split.
     - destruct Hparent as [l Hl]. apply In_map_ce in Hl. destruct Hl as (ds & Hin & Eds).
       rewrite <- Eds. apply (A2 ds l Hin).
     - split; [exact A1|]. split.
-      + intros Hhb. pose proof (Hlinkseen Hhb) as Hin.
+      + intros _ Hhb. pose proof (Hlinkseen Hhb) as Hin.
         destruct (In_accpaths_clean acc _ (g_acc st acc G) (g_seen st acc G _ Hin)) as [Hokl _].
         split; auto. pose proof (A3 _ Hin) as Hs. rewrite (split_comps _ Hokl) in Hs. apply safe_prefix in Hs. exact Hs.
       + split.
         * intros id pp Hin. apply (earlier_not_below acc it (pp_path pp) Hspec). apply (g_pipes st acc G id pp Hin).
-        * rewrite accpaths_app. apply in_or_app. right. left. reflexivity. }
+        * intros _. rewrite accpaths_app. apply in_or_app. right. left. reflexivity. }
   destruct (apply_change_inv idx 0 (st_path s) s st2 (acc ++ [it]) G2 Hpre) as (G3 & (F1 & F2 & F3 & _) & Hpost).
   set (st3 := apply_change c idx 0 (st_path s) s st2) in *.
   split; [|rewrite F3; reflexivity]. split; [exact G3|].
   intros L3. destruct (Hpost L3) as (L2 & P1 & P2 & P3).
   assert (L0 : live st = true) by exact L2. destruct (A L0) as [A1 A2 A3].
   assert (Hkeep : forall q, In q (accpaths acc) -> safe (r_fs st) D (comps q) -> safe (r_fs st3) D (comps q)).
-  { intros q Hq Hs. apply (P2 (comps q)); auto.
-    - apply (earlier_not_below acc it q Hspec Hq).
-    - apply (In_accpaths_clean acc q (g_acc st acc G) Hq). }
+  { intros q Hq Hs. apply (proj1 (P2 (comps q) ltac:(apply (earlier_not_below acc it q Hspec Hq)) ltac:(apply (In_accpaths_clean acc q (g_acc st acc G) Hq)))). exact Hs. }
   constructor.
   - exact P1.
   - intros ds l Hin. rewrite F1 in Hin. cbn [r_vstk st2 st1 set_diff set_valid] in Hin.
@@ -727,7 +726,7 @@ Proof.
     { apply in_map_iff. exists (ds, l). split; auto. }
     destruct (Hshape _ _ Hin') as [(Hp & l' & Hl')|(E1 & E2 & _)].
     + apply In_map_ce in Hl'. destruct Hl' as (ds' & Hin2 & Eds).
-      apply (P2 (pcomps ds)).
+      refine (proj1 (P2 (pcomps ds) _ _) _).
       * rewrite Ecs. apply is_prefix_not_longer. exact Hp.
       * intros t Ht Hint. apply (Hcl t Ht). apply removelast_In. apply (prefix_In _ _ t Hp Hint).
       * rewrite <- Eds. apply (A2 ds' l' Hin2).
